@@ -458,6 +458,7 @@ Operator const Operators[] =
   {"<=", 2 , True , 23, { Int2Int, Float2Float, String2String, 0, 0 }, LeOp},
   {">=", 2 , True , 23, { Int2Int, Float2Float, String2String, 0, 0 }, GeOp},
   {"<>", 2 , True , 23, { Int2Int, Float2Float, String2String, 0, 0 }, UneqOp},
+  {"!=", 2 , True , 23, { Int2Int, Float2Float, String2String, 0, 0 }, UneqOp},
   /* termination marker */
   {NULL, 0 , False,  0, { 0, 0, 0, 0, 0 }, NULL}
 },
